@@ -9,7 +9,9 @@ rm -rf "$scr"; mkdir -p "$scr"
 git -C /repo worktree add -q --detach "$scr/repo" HEAD || exit 9
 ( cd "$scr/repo" && git apply "$patch" ) || { echo "patch does not apply"; git -C /repo worktree remove --force "$scr/repo"; exit 9; }
 export VERIF_REPO="$scr/repo" VERIF_WORK="$scr/work" VERIF_OUT="$scr/out"
-cd /verif
+# run the committed machinery from a snapshot, so that edits made in /verif meanwhile do not disturb the run
+mkdir -p "$scr/verif" && git -C /verif archive HEAD | tar -x -C "$scr/verif"
+cd "$scr/verif"
 for id in "$@"; do
   echo "=== $id on $name"
   ./check "$id" --tier "${TIER:-quick}" > "$scr/$id.log" 2>&1
@@ -18,4 +20,4 @@ for id in "$@"; do
   echo "exit=$rc"
 done
 git -C /repo worktree remove --force "$scr/repo"
-rm -rf "$scr/work"
+rm -rf "$scr/work" "$scr/verif"
